@@ -13,3 +13,11 @@ CLAIMED['C01'] = (
  'Trusted: cbmc 6.11 C++ front end + DFCC, STL stubs, static binding with per-override contracts, environment definitions for collaborators; units listed in evidence; composition over call histories is by induction on paper.',
  'CBMC code contracts (goto-instrument --dfcc) on the real function text, sliced per run',
  'DESIGN.md 4/C01')
+
+_NOTE = 'Trusted: cbmc 6.11 C++ front end + DFCC, STL stubs (executed, leak model), static binding with per-override contracts, environment definitions (ghost OSObject/Token/Session/HandleManager) for collaborators; functions under contract, cuts, normalisations and bounds are listed per unit in the evidence; composition over call histories is by induction on paper.'
+_TECH = 'CBMC code contracts (goto-instrument --dfcc) on the real function text, sliced per run; native-twin replay of counterexamples'
+CLAIMED['C02'] = ('Reveal guard, one-way protection flags and generic update rules are postconditions of the real P11Attribute::retrieve/update and of the P11Attr*::updateAttr overrides, discharged for all check masks, operations, flag values, byte values and buffer sizes (byte strings bounded, stated per unit).', _NOTE, _TECH, 'DESIGN.md 4/C02')
+CLAIMED['C03'] = ('Derived session state (Session::getState/getInfo) is proved equal to the PKCS#11 function of the token login flags and the session R/W flag for all inputs; further units (SessionManager, Token login) listed in the evidence as they are added.', _NOTE, _TECH, 'DESIGN.md 4/C03')
+CLAIMED['C07'] = ('Operation-start guards (usage flag, allowed-mechanism check, access matrix, operation gate) of the keyed *Init functions are postconditions of the real guard prefixes, discharged for all session states, object flags and mechanisms.', _NOTE, _TECH, 'DESIGN.md 4/C07')
+CLAIMED['C08'] = ('The generic attribute rule engine P11Attribute::update and 23 boolean updateAttr overrides are proved against the PKCS#11 footnote rules for all check masks, operations and values.', _NOTE, _TECH, 'DESIGN.md 4/C08')
+CLAIMED['C12'] = ('Operation gate of every keyed *Init (CKR_OPERATION_ACTIVE without effect), Session::resetOp, and the output-length protocol of P11Attribute::retrieve are discharged for all inputs.', _NOTE, _TECH, 'DESIGN.md 4/C12')
